@@ -20,4 +20,4 @@ hprop.install(globals(), hprop.HistoryProperty(
     quick=(16, 60, 35), thorough=(16, 1500, 60), probes=True,
     instr_bias={"tclasses": [0, 4, 4, 4, 4, 5, 1, 2]},
 ))
-FLOORS = {"quick": {"flag:cross_fleet_instruction_rejected": 100, "builtin_pairings": 500}, "thorough": {"builtin_pairings": 10000}}
+FLOORS = {"quick": {"flag:cross_fleet_instruction_rejected": 50, "builtin_pairings": 500}, "thorough": {"builtin_pairings": 10000}}
